@@ -650,6 +650,22 @@ func (se *SpecEnv) callSpec(c *ast.CallExpr) Value {
 		return r
 	case "ite":
 		return se.fr.v.mergeV(targ(0), arg(1), arg(2))
+	case "derefor": // derefor(p, d): *p when the pointer p is not nil, d otherwise (no nil obligation)
+		var rec func(v Value) Value
+		rec = func(v Value) Value {
+			switch a := v.(type) {
+			case *PtrV:
+				if a.Obj == nil {
+					return arg(1)
+				}
+				return se.rvalue(se.deref(a))
+			case *IteV:
+				return se.fr.v.mergeV(a.C, rec(a.A), rec(a.B))
+			}
+			unsup("derefor() of %T", v)
+			return nil
+		}
+		return rec(arg(0))
 	case "fresh": // the slice/pointer result is backed by an object allocated during this call (owned by nobody else)
 		switch a := arg(0).(type) {
 		case *SliceV:
@@ -828,6 +844,13 @@ func (se *SpecEnv) callSpec(c *ast.CallExpr) Value {
 		}
 		return F.App("big.frombytes", SInt, arr.Arr, sl.Off, targ(1))
 	case "same": // same(a, b): pointer identity (an lvalue that denotes a pointer-typed cell is read first)
+		for _, a := range c.Args {
+			if id, isId := a.(*ast.Ident); isId && strings.HasPrefix(id.Name, "resultof_") {
+				if _, bound := se.state().srcVar[id.Name]; !bound {
+					return F.False() // that callee has not been called on this path
+				}
+			}
+		}
 		rd := func(x Value) Value {
 			if pv, ok := x.(*PtrV); ok && pv.Obj != nil && len(pv.Path) > 0 {
 				if c := se.fr.v.content0(se.state(), pv.Obj); c != nil {
@@ -843,6 +866,15 @@ func (se *SpecEnv) callSpec(c *ast.CallExpr) Value {
 		pb, ok2 := b.(*PtrV)
 		if ok1 && ok2 {
 			return F.Bool(pa.Obj == pb.Obj && samePath(pa.Path, pb.Path))
+		}
+		if sa, oks := a.(*SliceV); oks {
+			// slices: the same window of the same backing object
+			if sb, okt := b.(*SliceV); okt {
+				if sa.Obj != sb.Obj || !samePath(sa.Path, sb.Path) {
+					return F.False()
+				}
+				return F.And(F.Eq(sa.Off, sb.Off), F.Eq(sa.Len, sb.Len))
+			}
 		}
 		unsup("same() on %T,%T", a, b)
 	case "isnil":
